@@ -1,655 +1,13 @@
 /-
   C09 — Derived Encode/Decode round-trip for every type definition.
-  Property theorems only (helper lemmas: Lemmas/DeriveDec.lean).
-
-  `decTy` is the model of the generated `Decode` impl (Derive.lean, transcribed from
-  minicbor-derive/src/decode.rs), `encTy` of the generated `Encode` impl.
+  Part 1 (round trip, error reporting, re-framed input) is Thm/C09Round.lean; this file adds the
+  borrowing statement.  All theorems live in `namespace Minicbor.C09`.
 -/
-import Minicbor.Lemmas.DeriveDec
-import Minicbor.Lemmas.DeriveIndef
+import Minicbor.Thm.C09Round
 import Minicbor.Lemmas.TotalAcc
 
 namespace Minicbor.C09
 open Minicbor.Derive Minicbor.Dec
-
-/-! ### the excluded values
-
-`Option<T>::decode` looks at the next data type and takes `Type::Null` for `None`; so a
-`Some(x)` whose encoding *is* `null` (an `Option` nested in an `Option`, an `Option` of a
-transparent wrapper of a nil value) cannot come back as `Some` — the documented exclusion of C01.
-`noClash` demands of every `Some(x)` in the value that `datatype()` on the encoding of `x`
-does not answer `Null` (`startOk`: the first byte is not `f6`; its second conjunct — a one-byte
-negative-integer head is followed by its argument — holds for every encoding). -/
-
-mutual
-def noClash : FTy → Derive.Val → Bool
-  | .option t, .some v => startOk (encTy t v) && noClash t v
-  | .vec t, .list vs => vs.all (noClash t)
-  | .struct _ fs, .struct vs => noClashFields fs vs
-  | .enum _ vars, .enum k vs => noClashVars vars k vs
-  | _, _ => true
-termination_by structural t => t
-def noClashFields : Fields → List Derive.Val → Bool
-  | (a, t) :: fs, v :: vs => (a.skip || noClash t v) && noClashFields fs vs
-  | _, _ => true
-termination_by structural fs => fs
-def noClashVars : Variants → Nat → List Derive.Val → Bool
-  | [], _, _ => true
-  | (_, fs) :: _, 0, vs => noClashFields fs vs
-  | _ :: rest, k + 1, vs => noClashVars rest k vs
-termination_by structural vars => vars
-end
-
-/-! ### enum rows -/
-
-/-- the index of the `k`-th declared variant. -/
-def varIdx : Variants → Nat → Nat
-  | [], _ => 0
-  | (va, _) :: _, 0 => va.idx
-  | _ :: rest, k + 1 => varIdx rest k
-
-/-- what a row writes after the variant index. -/
-def rowBytes (e : EAttr) : Variants → Nat → List Derive.Val → Bytes
-  | [], _, _ => []
-  | (va, fs) :: _, 0, vs =>
-      let enc := va.enc.getD (e.enc.getD .array)
-      match va.shape with
-      | .unit => if e.indexOnly then [] else tagBytes va.tag ++ emptyBody enc
-      | _ => tagBytes va.tag ++ frame enc (encFields fs vs)
-  | _ :: rest, k + 1, vs => rowBytes e rest k vs
-
-theorem encVars_eq (e : EAttr) : ∀ (vars : Variants) (k : Nat) (vs : List Derive.Val),
-    acceptedVars e vars = true → hasVars vars k vs = true →
-    encVars e vars k vs =
-      (if e.indexOnly then [] else Enc.array 2) ++ (Enc.u32 (varIdx vars k) ++ rowBytes e vars k vs)
-  | [], _, _, _, h => by simp [hasVars] at h
-  | (va, fs) :: rest, 0, vs, ha, _ => by
-    simp only [acceptedVars, Bool.and_eq_true] at ha
-    have hio := ha.1.2
-    cases hsh : va.shape <;> cases hix : e.indexOnly <;>
-      simp [encVars, varIdx, rowBytes, hsh, hix] <;> simp [hix, hsh] at hio
-  | (va, fs) :: rest, k + 1, vs, ha, hv => by
-    simp only [acceptedVars, Bool.and_eq_true] at ha
-    simp only [hasVars] at hv
-    simp only [encVars, varIdx, rowBytes]
-    exact encVars_eq e rest k vs ha.2 hv
-
-theorem skip_emptyMap (rest : Bytes) : Dec.skip true (Enc.map 0 ++ rest) = .ok () rest := by
-  apply skip_leaf
-  have ha := map_enc 0 rest (by decide)
-  have e : Enc.map 0 ++ rest = 0xa0 :: rest := rfl
-  rw [e] at ha ⊢
-  simp [skipArm, Dec.bind_run, ha]
-
-theorem skip_emptyBody (enc : Encoding) (rest : Bytes) : Dec.skip true (emptyBody enc ++ rest) = .ok () rest := by
-  cases enc
-  · exact skip_emptyArray rest
-  · exact skip_emptyMap rest
-
-theorem blob_rt (t : FTy) (v : Derive.Val) (hb : fieldBlob t = true) (hv : hasTy t v = true) (hc : noClash t v = true)
-    (rest : Bytes) : decTy t (encTy t v ++ rest) = .ok (withDefaults t v) rest := by
-  cases t with
-  | blob k =>
-    cases v <;> simp [hasTy] at hv
-    simp only [encTy, decTy, withDefaults, Dec.bind_run, bytes_enc _ rest (by simpa [U64] using hv)]
-    rfl
-  | option t =>
-    cases t <;> simp [fieldBlob] at hb
-    cases v <;> simp [hasTy] at hv
-    · simp only [encTy, decTy, withDefaults]; exact optionDec_none _ rest
-    · rename_i k w
-      cases w <;> simp [hasTy] at hv
-      rename_i b
-      simp only [noClash, Bool.and_eq_true] at hc
-      simp only [decTy, withDefaults]
-      apply optionDec_some _ _ _ _ hc.1
-      simp only [encTy, decTy, Dec.bind_run, bytes_enc _ rest (by simpa [U64] using hv)]
-      rfl
-  | _ => simp [fieldBlob] at hb
-
-theorem nodup_head_ne (va : VAttr) (fs : Fields) (rest : Variants) (k : Nat)
-    (hnd : (((va, fs) :: rest).map (·.1.idx)).Nodup) (hk : k < rest.length) : va.idx ≠ varIdx rest k := by
-  have h : va.idx ∉ rest.map (·.1.idx) ∧ (rest.map (·.1.idx)).Nodup := List.nodup_cons.1 hnd
-  intro e
-  apply h.1
-  rw [e]
-  clear h hnd e
-  induction rest generalizing k with
-  | nil => simp at hk
-  | cons r rs ih =>
-    obtain ⟨ra, rf⟩ := r
-    cases k with
-    | zero => simp [varIdx]
-    | succ k =>
-      simp only [varIdx, List.map_cons, List.mem_cons]
-      right; exact ih k (by simpa using hk)
-
-theorem hasVars_lt : ∀ (vars : Variants) (k : Nat) (vs : List Derive.Val), hasVars vars k vs = true → k < vars.length
-  | [], _, _, h => by simp [hasVars] at h
-  | _ :: _, 0, _, _ => by simp
-  | _ :: rest, k + 1, vs, h => by
-    simp only [hasVars] at h
-    have := hasVars_lt rest k vs h
-    simp; omega
-
-/-! ### the main theorem -/
-
-mutual
-/-- **derive_roundtrip** (inductive core): decoding the derived encoding, followed by arbitrary
-    bytes, yields the value (skipped fields defaulted) and stops exactly at its end. -/
-theorem dec_roundtrip : ∀ (t : FTy) (v : Derive.Val), accepted t = true → hasTy t v = true → noClash t v = true →
-    ∀ rest, decTy t (encTy t v ++ rest) = .ok (withDefaults t v) rest
-  | .int k, v, _, hv, _, rest => by
-    cases v <;> simp [hasTy] at hv
-    simp only [encTy, decTy, withDefaults, Dec.bind_run, int_rt k _ rest hv]; rfl
-  | .bool, v, _, hv, _, rest => by
-    cases v <;> simp [hasTy] at hv
-    simp only [encTy, decTy, withDefaults, Dec.bind_run, bool_enc]; rfl
-  | .text k, v, _, hv, _, rest => by
-    cases v <;> simp [hasTy] at hv
-    simp only [encTy, decTy, withDefaults, Dec.bind_run, str_enc _ rest (by simpa [U64] using hv.2) hv.1]; rfl
-  | .blob k, v, _, hv, _, rest => by
-    cases v <;> simp [hasTy] at hv
-    simp only [encTy, decTy, withDefaults, Dec.bind_run, bytes_enc _ rest (by simpa [U64] using hv)]; rfl
-  | .option t, v, ha, hv, hc, rest => by
-    simp only [accepted] at ha
-    cases v <;> simp [hasTy] at hv
-    · simp only [encTy, decTy, withDefaults]; exact optionDec_none _ rest
-    · simp only [noClash, Bool.and_eq_true] at hc
-      simp only [encTy, decTy, withDefaults]
-      exact optionDec_some _ _ _ _ hc.1 (dec_roundtrip t _ ha hv hc.2 rest)
-  | .vec t, v, ha, hv, hc, rest => by
-    simp only [accepted] at ha
-    cases v <;> simp [hasTy] at hv
-    rename_i vs
-    simp only [noClash] at hc
-    simp only [encTy, decTy, withDefaults]
-    exact vecDec_rt (decTy t) (encTy t) (withDefaults t) vs rest (by simpa [U64] using hv.2)
-      (fun w hw r => dec_roundtrip t w ha (hv.1 w hw) (by simpa using List.all_eq_true.1 hc w hw) r)
-  | .struct a fs, v, ha, hv, hc, rest => by
-    simp only [accepted, Bool.and_eq_true] at ha
-    cases v <;> simp [hasTy] at hv
-    rename_i vs
-    simp only [noClash] at hc
-    have hrt := fields_roundtrip fs vs ha.1.1.1.2 hv hc
-    simp only [encTy, decTy, withDefaults, structDec]
-    cases htr : a.transparent
-    · simp only [Bool.false_eq_true, if_false, List.append_assoc]
-      rw [Dec.bind_run, tagCheck_rt _ _ ha.1.1.1.1]
-      simp only []
-      rw [Dec.bind_run, fieldsDec_rt _ fs vs rest ha.1.1.1.2 (C08.nodupNat_nodup _ ha.1.1.2) hv hrt]
-      rfl
-    · simp only [if_true]
-      have h1 := ha.2
-      simp only [htr, Bool.not_true, Bool.false_or, Bool.and_eq_true] at h1
-      match fs, vs, hv, h1, hrt with
-      | [(fa, ft)], [w], _, h1, hrt =>
-        have hs : fa.skip = false := by simpa using h1.2
-        have := hrt.1 hs rest
-        simp only [encFields, hs, Bool.false_eq_true, if_false, transparentBody, decFields, transparentDec,
-          defaultsFields, Dec.bind_run, this]
-        rfl
-      | [(fa, ft)], [], hv, _, _ => simp [hasFields] at hv
-      | [(fa, ft)], _ :: _ :: _, hv, _, _ => simp [hasFields] at hv
-      | [], _, _, h1, _ => simp at h1
-      | _ :: _ :: _, _, _, h1, _ => simp at h1
-  | .enum a vars, v, ha, hv, hc, rest => by
-    simp only [accepted, Bool.and_eq_true] at ha
-    cases v <;> simp [hasTy] at hv
-    rename_i k vs
-    simp only [noClash] at hc
-    have hrow := vars_roundtrip a vars k vs 0 ha.1.1.2 (C08.nodupNat_nodup _ ha.1.2) hv hc rest
-    have hidx : varIdx vars k < 4294967296 := by
-      clear hrow hc
-      have hacc := ha.1.1.2
-      clear ha
-      induction vars generalizing k with
-      | nil => simp [hasVars] at hv
-      | cons r rs ih =>
-        obtain ⟨ra, rf⟩ := r
-        simp only [acceptedVars, Bool.and_eq_true, decide_eq_true_eq] at hacc
-        cases k with
-        | zero => simpa [varIdx, U32] using hacc.1.1.1.1.1.1
-        | succ k => simp only [hasVars] at hv; simpa [varIdx] using ih k hv hacc.2
-    simp only [encTy, decTy, withDefaults, enumDec, encVars_eq a vars k vs ha.1.1.2 hv, List.append_assoc]
-    rw [Dec.bind_run, tagCheck_rt _ _ ha.1.1.1]
-    simp only []
-    cases hix : a.indexOnly
-    · simp only [Bool.false_eq_true, if_false, List.append_assoc]
-      rw [Dec.bind_run, Dec.bind_run, array_enc 2 _ (by decide)]
-      simp only [beq_self_eq_true, if_true, Dec.pure_run]
-      rw [Dec.bind_run, intAcc_u32 _ _ hidx]
-      simpa using hrow
-    · simp only [if_true, List.nil_append, Dec.bind_run, Dec.pure_run, intAcc_u32 _ _ hidx]
-      simpa using hrow
-termination_by structural t => t
-theorem fields_roundtrip : ∀ (fs : Fields) (vs : List Derive.Val), acceptedFields fs = true → hasFields fs vs = true →
-    noClashFields fs vs = true → FieldsRT fs vs
-  | [], _, _, _, _ => trivial
-  | (a, t) :: fs, [], _, _, _ => trivial
-  | (a, t) :: fs, v :: vs, ha, hv, hc => by
-    simp only [acceptedFields, Bool.and_eq_true] at ha
-    simp only [hasFields, Bool.and_eq_true] at hv
-    simp only [noClashFields, Bool.and_eq_true, Bool.or_eq_true] at hc
-    refine ⟨?_, fields_roundtrip fs vs ha.2 hv.2 hc.2⟩
-    intro hs r
-    have hcl : noClash t v = true := by
-      rcases hc.1 with h | h
-      · rw [hs] at h; cases h
-      · exact h
-    have hco : codecOk a.codec t = true := by
-      have := ha.1.1
-      simp only [fieldAttrOk, hs, Bool.false_eq_true, if_false, Bool.and_eq_true] at this
-      exact this.1.2
-    have hbody : ∀ r, decTy t (encTy t v ++ r) = .ok (withDefaults t v) r := by
-      intro r
-      cases hb : fieldBlob t
-      · exact dec_roundtrip t v (by simpa [hb] using ha.1.2) hv.1 hcl r
-      · exact blob_rt t v hb hv.1 hcl r
-    cases hcd : a.codec
-    · simpa [decWith, encWith] using hbody r
-    · simpa [decWith, encWith] using hbody r
-    · rw [hcd] at hco
-      have ht : t = .int .u32 := by
-        cases t <;> simp [codecOk] at hco
-        rename_i k; cases k <;> simp [codecOk] at hco; rfl
-      subst ht
-      cases v <;> simp [hasTy] at hv
-      rename_i i
-      simpa [withDefaults] using nilu_rt i r hv.1 (decTy (.int .u32)) (encTy (.int .u32))
-termination_by structural fs => fs
-theorem vars_roundtrip (e : EAttr) : ∀ (vars : Variants) (k : Nat) (vs : List Derive.Val) (pos : Nat),
-    acceptedVars e vars = true → (vars.map (·.1.idx)).Nodup → hasVars vars k vs = true →
-    noClashVars vars k vs = true →
-    ∀ rest, findVariant (decVars e vars) pos (varIdx vars k) (rowBytes e vars k vs ++ rest) =
-      .ok (.enum (pos + k) (defaultsVars vars k vs)) rest
-  | [], _, _, _, _, _, hv, _, _ => by simp [hasVars] at hv
-  | (va, fs) :: rest, 0, vs, pos, ha, _, hv, hc, r => by
-    simp only [acceptedVars, Bool.and_eq_true, decide_eq_true_eq] at ha
-    simp only [hasVars] at hv
-    simp only [noClashVars] at hc
-    obtain ⟨⟨⟨⟨⟨⟨hidx, htag⟩, hacc⟩, hnd⟩, hunit⟩, hio⟩, _⟩ := ha
-    simp only [decVars, findVariant, varIdx, beq_self_eq_true, if_true, rowBytes, defaultsVars, Nat.add_zero]
-    cases hsh : va.shape
-    · -- unit variant: no fields
-      have hfs : fs = [] := by simpa [hsh] using hunit
-      subst hfs
-      have hvs : vs = [] := by cases vs <;> simp [hasFields] at hv ⊢
-      subst hvs
-      cases hix : e.indexOnly
-      · simp only [Bool.false_eq_true, if_false, List.append_assoc, Dec.bind_run, tagCheck_rt _ _ htag,
-          skip_emptyBody, Dec.pure_run, defaultsFields]
-      · simp [Dec.bind_run, defaultsFields]
-    all_goals
-      have hfr := fields_roundtrip fs vs hacc hv hc
-      simp only [List.append_assoc, Dec.bind_run, tagCheck_rt _ _ htag,
-        fieldsDec_rt _ fs vs r hacc (C08.nodupNat_nodup _ hnd) hv hfr, Dec.pure_run]
-  | (va, fs) :: rest, k + 1, vs, pos, ha, hnd, hv, hc, r => by
-    simp only [acceptedVars, Bool.and_eq_true] at ha
-    simp only [hasVars] at hv
-    simp only [noClashVars] at hc
-    have hne := nodup_head_ne va fs rest k hnd (hasVars_lt rest k vs hv)
-    have hb : (va.idx == varIdx rest k) = false := by simpa using hne
-    have hnd' : (rest.map (·.1.idx)).Nodup := (List.nodup_cons.1 (show (va.idx :: rest.map (·.1.idx)).Nodup from hnd)).2
-    have ih := vars_roundtrip e rest k vs (pos + 1) ha.2 hnd' hv hc r
-    simp only [decVars, findVariant, varIdx, rowBytes, defaultsVars, hb, Bool.false_eq_true, if_false]
-    rw [ih]
-    congr 2
-    omega
-termination_by structural vars => vars
-end
-
-/-- **C09, main statement.**  For every struct or enum definition accepted by the derive macros
-    and every value of it (outside the documented `Some(x) ↦ null` exclusion), decoding the
-    derived encoding followed by arbitrary bytes yields an equal value, skipped fields taking
-    their default, and consumes exactly the encoding. -/
-theorem derive_roundtrip (t : FTy) (v : Derive.Val) (ha : accepted t = true) (hv : hasTy t v = true)
-    (hc : noClash t v = true) (rest : Bytes) :
-    deriveDecode t (deriveEncode t v ++ rest) = .ok (withDefaults t v) rest :=
-  dec_roundtrip t v ha hv hc rest
-
-/-- … in particular on the encoding alone the decoder stops at position `len`. -/
-theorem derive_roundtrip_exact_length (t : FTy) (v : Derive.Val) (ha : accepted t = true) (hv : hasTy t v = true)
-    (hc : noClash t v = true) :
-    deriveDecode t (deriveEncode t v) = .ok (withDefaults t v) [] := by
-  have := derive_roundtrip t v ha hv hc []
-  simpa using this
-
-/-! ### errors are reported, never papered over with defaults -/
-
-theorem tagCheck_wrong (t t' : Nat) (rest : Bytes) (h : t' < 18446744073709551616) (hne : t' ≠ t) :
-    tagCheck (some t) (Enc.tag t' ++ rest) = .err .tag rest := by
-  simp [tagCheck, Dec.bind_run, tag_enc t' rest h, hne]
-
-/-- a wrong tag on a struct is a tag-mismatch error (position: right after the tag). -/
-theorem derive_wrong_tag (a : SAttr) (fs : Fields) (t t' : Nat) (rest : Bytes) (ht : a.tag = some t)
-    (hnt : a.transparent = false) (h : t' < 18446744073709551616) (hne : t' ≠ t) :
-    deriveDecode (.struct a fs) (Enc.tag t' ++ rest) = .err .tag rest := by
-  simp only [deriveDecode, decTy, structDec, hnt, Bool.false_eq_true, if_false, ht]
-  rw [Dec.bind_run, tagCheck_wrong t t' rest h hne]
-
-/-- … and on an enum. -/
-theorem derive_wrong_tag_enum (a : EAttr) (vars : Variants) (t t' : Nat) (rest : Bytes) (ht : a.tag = some t)
-    (h : t' < 18446744073709551616) (hne : t' ≠ t) :
-    deriveDecode (.enum a vars) (Enc.tag t' ++ rest) = .err .tag rest := by
-  simp only [deriveDecode, decTy, enumDec, ht]
-  rw [Dec.bind_run, tagCheck_wrong t t' rest h hne]
-
-/-- a missing tag (the input does not start with a tag head) is an error. -/
-theorem derive_missing_tag (a : SAttr) (fs : Fields) (t : Nat) (b : UInt8) (bs : Bytes) (ht : a.tag = some t)
-    (hnt : a.transparent = false) (hb : Dec.majorOf b ≠ 0xc0) :
-    ∃ e r, deriveDecode (.struct a fs) (b :: bs) = .err e r := by
-  obtain ⟨e, r, he⟩ := typeMismatch_is_err (α := Nat) b bs
-  refine ⟨e, r, ?_⟩
-  simp only [deriveDecode, decTy, structDec, hnt, Bool.false_eq_true, if_false, ht, tagCheck]
-  simp [Dec.bind_run, Dec.tag, hb, he]
-
-theorem slotValue_res (fd : FDec) (s : Option Derive.Val) (r : Bytes) :
-    (∃ v, slotValue fd s r = .ok v r) ∨ slotValue fd s r = .err .missing r := by
-  unfold slotValue
-  cases fd.a.skip
-  · cases s with
-    | some x => exact Or.inl ⟨x, rfl⟩
-    | none =>
-      cases fd.nilV with
-      | some z => exact Or.inl ⟨z, rfl⟩
-      | none => exact Or.inr rfl
-  · exact Or.inl ⟨fd.dflt, rfl⟩
-
-/-- the initialiser reports a field that has neither a decoded value nor a nil value. -/
-theorem resolve_missing : ∀ (fds : List FDec) (ss : Slots) (r : Bytes), fds.length = ss.length →
-    (∃ i, ∃ (h : i < fds.length) (h' : i < ss.length), (fds[i]).a.skip = false ∧ ss[i] = none ∧ (fds[i]).nilV = none) →
-    resolve fds ss r = .err .missing r
-  | [], _, _, _, ⟨i, h, _⟩ => by simp at h
-  | fd :: fds, [], _, hl, _ => by simp at hl
-  | fd :: fds, s :: ss, r, hl, ⟨i, h, h', hskip, hs, hn⟩ => by
-    simp only [resolve]
-    cases i with
-    | zero =>
-      simp only [List.getElem_cons_zero] at hskip hs hn
-      rw [Dec.bind_run]
-      simp [slotValue, hskip, hs, hn]
-    | succ i =>
-      simp only [List.getElem_cons_succ] at hskip hs hn
-      have ih := resolve_missing fds ss r (by simpa using hl)
-        ⟨i, by simpa using h, by simpa using h', hskip, hs, hn⟩
-      rw [Dec.bind_run]
-      rcases slotValue_res fd s r with ⟨v, hv⟩ | hv
-      · rw [hv]
-        simp only []
-        rw [Dec.bind_run, ih]
-      · rw [hv]
-
-/-- **a missing mandatory field is an error**: a struct that declares a mandatory (non-nil-able,
-    non-skipped) field rejects the empty array and the empty map. -/
-theorem derive_missing_mandatory (a : SAttr) (fs : Fields) (fa : FAttr) (ft : FTy) (rest : Bytes)
-    (hnt : a.transparent = false) (htag : a.tag = none) (hmem : (fa, ft) ∈ fs) (hlive : fa.skip = false)
-    (hmand : nilOf fa ft = none) (hnoopt : ft.isOption = false) :
-    deriveDecode (.struct a fs) (emptyBody (a.enc.getD .array) ++ rest) = .err .missing rest := by
-  have hres : resolve (decFields fs) ((decFields fs).map (·.init)) rest = .err .missing rest := by
-    apply resolve_missing _ _ _ (by simp)
-    obtain ⟨i, hi, hget⟩ := List.getElem_of_mem hmem
-    have hlen : (decFields fs).length = fs.length := by
-      clear hmem hi hget
-      induction fs with
-      | nil => rfl
-      | cons f fs ih => obtain ⟨x, y⟩ := f; simp [decFields, ih]
-    have hget' : ∀ (fs : Fields) (i : Nat) (h : i < fs.length) (h2 : i < (decFields fs).length),
-        (decFields fs)[i] = ⟨fs[i].1, slotInit fs[i].2, nilOf fs[i].1 fs[i].2, defaultOf fs[i].2,
-          swallows fs[i].1 fs[i].2, decWith fs[i].1.codec (decTy fs[i].2)⟩ := by
-      intro fs
-      induction fs with
-      | nil => intro i h; simp at h
-      | cons f fs ih =>
-        obtain ⟨x, y⟩ := f
-        intro i h h2
-        cases i with
-        | zero => simp [decFields]
-        | succ i => simp only [decFields, List.getElem_cons_succ]; exact ih i (by simpa using h) (by simpa [decFields] using h2)
-    refine ⟨i, by omega, by simp; omega, ?_, ?_, ?_⟩
-    · rw [hget' fs i hi (by omega), hget]; exact hlive
-    · simp only [List.getElem_map]
-      rw [hget' fs i hi (by omega), hget]
-      simp [slotInit, hnoopt]
-    · rw [hget' fs i hi (by omega), hget]; exact hmand
-  simp only [deriveDecode, decTy, structDec, hnt, Bool.false_eq_true, if_false, htag, tagCheck]
-  cases henc : a.enc.getD .array
-  · have e : emptyBody .array ++ rest = Enc.array 0 ++ rest := rfl
-    simp only [Dec.bind_run, Dec.pure_run, Derive.fieldsDec, statements, e, array_enc 0 rest (by decide), arrLoopN, hres]
-  · have e : emptyBody .map ++ rest = Enc.map 0 ++ rest := rfl
-    simp only [Dec.bind_run, Dec.pure_run, Derive.fieldsDec, statements, e, map_enc 0 rest (by decide), mapLoopN, hres]
-
-theorem findVariant_unknown : ∀ (vds : List VDec) (pos i : Nat) (r : Bytes), (∀ vd ∈ vds, vd.a.idx ≠ i) →
-    findVariant vds pos i r = .err .variant r
-  | [], _, _, _, _ => rfl
-  | vd :: vds, pos, i, r, h => by
-    have : (vd.a.idx == i) = false := by simpa using h vd (by simp)
-    simp only [findVariant, this, Bool.false_eq_true, if_false]
-    exact findVariant_unknown vds (pos + 1) i r (fun v hv => h v (by simp [hv]))
-
-theorem decVars_idx (e : EAttr) : ∀ (vars : Variants) (vd : VDec), vd ∈ decVars e vars → vd.a.idx ∈ vars.map (·.1.idx)
-  | [], vd, h => by simp [decVars] at h
-  | (va, fs) :: rest, vd, h => by
-    simp only [decVars, List.mem_cons] at h
-    rcases h with rfl | h
-    · simp
-    · simp only [List.map_cons, List.mem_cons]; right; exact decVars_idx e rest vd h
-
-/-- **an unknown variant at top level is an error** (position: right after the index). -/
-theorem derive_unknown_variant (a : EAttr) (vars : Variants) (i : Nat) (rest : Bytes) (htag : a.tag = none)
-    (hi : i < 4294967296) (hunk : i ∉ vars.map (·.1.idx)) :
-    deriveDecode (.enum a vars) ((if a.indexOnly then [] else Enc.array 2) ++ (Enc.u32 i ++ rest)) = .err .variant rest := by
-  have hfv := findVariant_unknown (decVars a vars) 0 i rest (by
-    intro vd hvd e; apply hunk; rw [← e]; exact decVars_idx a vars vd hvd)
-  simp only [deriveDecode, decTy, enumDec, htag, tagCheck]
-  cases hix : a.indexOnly
-  · simp only [Bool.false_eq_true, if_false, Dec.bind_run, Dec.pure_run, array_enc 2 _ (by decide), beq_self_eq_true,
-      if_true, intAcc_u32 i rest hi]
-    simpa using hfv
-  · simp only [if_true, List.nil_append, Dec.bind_run, Dec.pure_run, intAcc_u32 i rest hi]
-    simpa using hfv
-
-/-- the two-element wrapper of an enum is only accepted in definite form: an indefinite-length
-    wrapper (`9f idx body ff`) is rejected with a message error (the code as it is; the
-    documentation writes `array(2)`). -/
-theorem derive_enum_indefinite_wrapper_rejected (a : EAttr) (vars : Variants) (rest : Bytes) (htag : a.tag = none)
-    (hix : a.indexOnly = false) : deriveDecode (.enum a vars) (0x9f :: rest) = .err .message rest := by
-  simp [deriveDecode, decTy, enumDec, htag, tagCheck, hix, Dec.bind_run, Dec.array, Dec.container, Dec.majorOf, Dec.infoOf]
-  rfl
-
-/-! ### re-framed input (indefinite-length containers, non-preferred heads)
-
-The property also quantifies over re-framings of the encoding.  Stated on wire trees (Wire.lean):
-any valid tree `w` whose data-model value is the documented value and which does not chunk its
-strings (the `String` / byte-string decoders reject chunked strings by design).  On the code as
-it is the statement is false (K8): the generated enum decoder insists on a *definite* two-element
-wrapper.  Proved parts: `derive_decode_reframed_partial` (the preferred framing, i.e.
-`derive_roundtrip` read through C08) and `derive_decode_indefinite_struct` (the struct's own
-array / map container in indefinite-length form, both encodings, with fuel adequacy of the
-model's loops); the remaining framings (indefinite nested / variant / `Vec` containers, widened
-heads) are covered by the correspondence stream `derive-reframed` only. -/
-
-/-- a struct / variant body as the documented items inside an *indefinite-length* container. -/
-def indefBody (enc : Encoding) (fs : Fields) (vs : List Derive.Val) : Bytes :=
-  match enc with
-  | .array =>
-      0x9f :: ((match maxPresent (specFields fs vs) with
-        | none => []
-        | some m => encPrefs ((List.range' 0 (m + 1)).map (cellAt (specFields fs vs)))) ++ [0xff])
-  | .map => 0xbf :: (mapStmts (sortP (encFields fs vs)) ++ [0xff])
-
-/-- `datatype()` at the start of every array cell neither fails nor answers `Break` (holds for
-    every encoding; kept as a decidable hypothesis like `noClash`). -/
-def cellsStartOk (fs : Fields) (vs : List Derive.Val) : Bool :=
-  match maxPresent (specFields fs vs) with
-  | none => true
-  | some m => (List.range' 0 (m + 1)).all fun i => startNB (encPref (cellAt (specFields fs vs) i))
-
-theorem encPref_length_pos (x : Item) : 1 ≤ (encPref x).length := by
-  cases x <;> simp [encPref, prefTree, encW, headW]
-  split <;> simp
-
-theorem encPrefs_length_ge (xs : List Item) : xs.length ≤ (encPrefs xs).length := by
-  induction xs with
-  | nil => simp
-  | cons x xs ih =>
-    rw [encPrefs_cons, List.length_append, List.length_cons]
-    have := encPref_length_pos x
-    omega
-
-theorem mapStmts_length_ge (S : List (Derive.Piece Bytes)) : countPresent S ≤ (mapStmts S).length := by
-  induction S with
-  | nil => simp [countPresent, mapStmts]
-  | cons p ps ih =>
-    cases hn : p.nil
-    · have : 1 ≤ (Enc.u32 p.idx).length := by unfold Enc.u32; (repeat' split) <;> simp
-      simp [countPresent, mapStmts, hn]; omega
-    · simp [countPresent, mapStmts, hn, ih]
-
-/-- the indefinite-length loops of `gen_statements` read a body given in an indefinite-length
-    container (fuel adequacy included: the loop never runs out of the local fuel). -/
-theorem fieldsDec_indef (enc : Encoding) (fs : Fields) (vs : List Derive.Val) (rest : Bytes)
-    (hacc : acceptedFields fs = true) (hnd : (liveIdxs fs).Nodup) (hty : hasFields fs vs = true)
-    (hrt : FieldsRT fs vs) (hst : enc = .array → cellsStartOk fs vs = true) :
-    Derive.fieldsDec enc (decFields fs) (indefBody enc fs vs ++ rest) = .ok (defaultsFields fs vs) rest := by
-  have hinit := inv_init fs vs hty
-  cases enc with
-  | array =>
-    have hst' := hst rfl
-    have harr : ∀ X : Bytes, Dec.array (0x9f :: X) = .ok none X := by
-      intro X; simp [Dec.array, Dec.container, Dec.bind_run, Dec.majorOf, Dec.infoOf]; rfl
-    cases hm : maxPresent (specFields fs vs) with
-    | none =>
-      have hnil := maxPresent_none hm
-      have hres := resolve_inv (fun _ => false) fs vs _ hacc hty hinit (by
-        intro p hp
-        rw [C08.fields_spec fs vs hacc hty] at hp
-        obtain ⟨q, hq, rfl⟩ := List.mem_map.1 hp
-        exact Or.inr (hnil q hq)) rest
-      obtain ⟨ss', h1, hi1⟩ := arrLoopI_cells rest fs vs hacc hnd hty hrt 0 0 _ _ (rest.length + 1 + 1) (by omega) hinit
-        (by intro i h1 h2; omega)
-      simp only [List.range'_zero, List.map_nil, encPrefs_nil, List.nil_append] at h1
-      have hres' := resolve_inv _ fs vs ss' hacc hty hi1 (by
-        intro p hp
-        rw [C08.fields_spec fs vs hacc hty] at hp
-        obtain ⟨q, hq, rfl⟩ := List.mem_map.1 hp
-        exact Or.inr (hnil q hq)) rest
-      simp only [indefBody, hm, List.nil_append, List.cons_append, Derive.fieldsDec, statements, Dec.bind_run, harr,
-        Dec.remaining, List.length_cons, h1, hres']
-    | some m =>
-      simp only [cellsStartOk, hm, List.all_eq_true] at hst'
-      have hlen : m + 1 ≤ (encPrefs ((List.range' 0 (m + 1)).map (cellAt (specFields fs vs)))).length := by
-        have := encPrefs_length_ge ((List.range' 0 (m + 1)).map (cellAt (specFields fs vs)))
-        simpa using this
-      obtain ⟨ss', h1, hi1⟩ := arrLoopI_cells rest fs vs hacc hnd hty hrt (m + 1) 0 _ _
-        ((encPrefs ((List.range' 0 (m + 1)).map (cellAt (specFields fs vs))) ++ 0xff :: rest).length + 1)
-        (by simp only [List.length_append]; omega) hinit
-        (by intro i _ h2; exact hst' i (by simp [List.mem_range']; omega))
-      have hres := resolve_inv _ fs vs ss' hacc hty hi1 (by
-        intro p hp
-        rw [C08.fields_spec fs vs hacc hty] at hp
-        obtain ⟨q', hq', rfl⟩ := List.mem_map.1 hp
-        cases hn : q'.nil
-        · left
-          have := maxPresent_ge hm q' hq' hn
-          simp; omega
-        · right; exact hn) rest
-      simp only [indefBody, hm, List.cons_append, List.append_assoc, List.singleton_append, List.nil_append,
-        Derive.fieldsDec, statements, Dec.bind_run, harr, Dec.remaining, h1, hres]
-  | map =>
-    have hmap : ∀ X : Bytes, Dec.map (0xbf :: X) = .ok none X := by
-      intro X; simp [Dec.map, Dec.container, Dec.bind_run, Dec.majorOf, Dec.infoOf]; rfl
-    have hperm := sortP_perm (encFields fs vs)
-    have hS : ∀ p ∈ sortP (encFields fs vs), p ∈ encFields fs vs ∧ p.idx < U32 := by
-      intro p hp
-      have := hperm.mem_iff.1 hp
-      exact ⟨this, mem_encFields_idx fs vs hacc hty p this⟩
-    have hge := mapStmts_length_ge (sortP (encFields fs vs))
-    obtain ⟨ss', h1, hi1⟩ := mapLoopI_stmts rest fs vs hacc hnd hrt (sortP (encFields fs vs)) _ _
-      ((mapStmts (sortP (encFields fs vs)) ++ 0xff :: rest).length + 1)
-      (by simp only [List.length_append]; omega) hS hinit
-    have hres := resolve_inv _ fs vs ss' hacc hty hi1 (by
-      intro p hp
-      cases hn : p.nil
-      · left
-        have hp' := hperm.mem_iff.2 hp
-        simp only [Bool.false_or, presentIdx, List.any_eq_true]
-        exact ⟨p, hp', by simp [hn]⟩
-      · right; rfl) rest
-    simp only [indefBody, List.cons_append, List.append_assoc, List.singleton_append, List.nil_append,
-      Derive.fieldsDec, statements, Dec.bind_run, hmap, Dec.remaining, h1, hres]
-
-/-- **indefinite-length struct container** (`_partial` next to the K8 counterexample): a struct
-    whose array / map container is given in indefinite-length form (`9f … ff` / `bf … ff`),
-    the fields inside as the encoder writes them, decodes to the same value and is consumed
-    exactly — for every accepted struct and value, both encodings. -/
-theorem derive_decode_indefinite_struct (a : SAttr) (fs : Fields) (vs : List Derive.Val) (rest : Bytes)
-    (ha : accepted (.struct a fs) = true) (hv : hasTy (.struct a fs) (.struct vs) = true)
-    (hc : noClash (.struct a fs) (.struct vs) = true) (hta : a.transparent = false)
-    (hst : a.enc.getD .array = .array → cellsStartOk fs vs = true) :
-    deriveDecode (.struct a fs) (tagBytes a.tag ++ (indefBody (a.enc.getD .array) fs vs ++ rest))
-      = .ok (.struct (defaultsFields fs vs)) rest := by
-  simp only [accepted, Bool.and_eq_true] at ha
-  simp only [hasTy] at hv
-  simp only [noClash] at hc
-  have hrt := fields_roundtrip fs vs ha.1.1.1.2 hv hc
-  simp only [deriveDecode, decTy, structDec, hta, Bool.false_eq_true, if_false]
-  rw [Dec.bind_run, tagCheck_rt _ _ ha.1.1.1.1]
-  simp only []
-  rw [Dec.bind_run, fieldsDec_indef _ fs vs rest ha.1.1.1.2 (C08.nodupNat_nodup _ ha.1.1.2) hv hrt hst]
-  rfl
-
-example : deriveDecode C08.exStruct ([0xc9] ++ (indefBody .array
-      [({ idx := 3, tag := some 5 }, .option (.int .u8)), ({ idx := 0 }, .text .string), ({ idx := 1, codec := .nilu }, .int .u32), ({ skip := true }, .bool)]
-      [.some (.int 7), .text [0x61], .int 0, .bool true] ++ [0x01]))
-    = .ok (.struct [.some (.int 7), .text [0x61], .int 0, .bool false]) [0x01] := by rfl
-
-mutual
-def noChunks : WItem → Bool
-  | .bytesI _ => false
-  | .textI _ => false
-  | .array _ xs => noChunksAll xs
-  | .arrayI xs => noChunksAll xs
-  | .map _ kvs => noChunksAll kvs
-  | .mapI kvs => noChunksAll kvs
-  | .tag _ _ x => noChunks x
-  | _ => true
-def noChunksAll : List WItem → Bool
-  | [] => true
-  | x :: xs => noChunks x && noChunksAll xs
-end
-
-/-- the full-strength statement (false on the code as it is: K8). -/
-def derive_decode_reframed_statement : Prop :=
-  ∀ (t : FTy) (v : Derive.Val) (w : WItem) (rest : Bytes), accepted t = true → hasTy t v = true → noClash t v = true →
-    w.Valid → value w = specTy t v → noChunks w = true →
-    deriveDecode t (encW w ++ rest) = .ok (withDefaults t v) rest
-
-theorem derive_decode_reframed_partial (t : FTy) (v : Derive.Val) (rest : Bytes) (ha : accepted t = true)
-    (hv : hasTy t v = true) (hc : noClash t v = true) :
-    deriveDecode t (encW (prefTree (specTy t v)) ++ rest) = .ok (withDefaults t v) rest := by
-  have h1 := derive_roundtrip t v ha hv hc rest
-  have h2 := C08.derive_encode_spec t v ha hv
-  unfold specEncode encPref at h2
-  rw [← h2]; exact h1
-
-def k8Type : FTy := .enum {} [({ idx := 0, shape := .unit }, [])]
-def k8Wire : WItem := .arrayI [.uint .w0 0, .array .w0 []]
-
-/-- K8: `enum E { #[n(0)] A }`; the valid re-framing `9f 00 80 ff` of `82 00 80` has the same
-    data-model value but is rejected with a message error. -/
-theorem derive_decode_reframed_counterexample_K8 :
-    accepted k8Type = true ∧ hasTy k8Type (.enum 0 []) = true ∧ noClash k8Type (.enum 0 []) = true ∧
-    k8Wire.valid = true ∧ noChunks k8Wire = true ∧ encW k8Wire = [0x9f, 0x00, 0x80, 0xff] ∧
-    deriveDecode k8Type (encW k8Wire) = .err .message [0x00, 0x80, 0xff] := by
-  refine ⟨by rfl, by rfl, by rfl, by rfl, by rfl, by rfl, by rfl⟩
-
-theorem derive_decode_reframed_statement_false : ¬ derive_decode_reframed_statement := by
-  intro h
-  have := h k8Type (.enum 0 []) k8Wire [] (by rfl) (by rfl) (by rfl) (by rfl) (by rfl) (by rfl)
-  have e : deriveDecode k8Type (encW k8Wire ++ []) = .err .message [0x00, 0x80, 0xff] := by rfl
-  rw [e] at this
-  cases this
 
 /-! ### borrowing
 
@@ -707,19 +65,5 @@ theorem borrowed_leaf_is_input_slice (bs s rest : Bytes) (h : Dec.bytes bs = .ok
   rcases h with h | h
   · exact bytes_slice bs s rest h
   · exact str_slice bs s rest h
-
-/-! ### the exclusion is necessary; non-vacuity -/
-
-/-- `Option<Option<u8>>`: `Some(None)` is written as `null` and comes back as `None`. -/
-theorem null_clash_counterexample :
-    let t : FTy := .struct {} [({ idx := 0 }, .vec (.option (.option (.int .u8))))]
-    let v : Derive.Val := .struct [.list [.some .none]]
-    accepted t = true ∧ hasTy t v = true ∧ noClash t v = false ∧
-      deriveDecode t (deriveEncode t v) = .ok (.struct [.list [.none]]) [] := by
-  refine ⟨rfl, rfl, rfl, rfl⟩
-
-example : noClash C08.exStruct (.struct [.some (.int 7), .text [0x61], .int 0, .bool true]) = true := by rfl
-example : deriveDecode C08.exStruct (deriveEncode C08.exStruct (.struct [.some (.int 7), .text [0x61], .int 0, .bool true]) ++ [1, 2])
-    = .ok (.struct [.some (.int 7), .text [0x61], .int 0, .bool false]) [1, 2] := by rfl
 
 end Minicbor.C09
